@@ -12,3 +12,6 @@ func c14GetCookie(x *clientHelloMsg) []byte          { return nil }
 func c14ExtraNew(kind string) handshakeMessage       { return nil }
 func c14ExtraTo(m c14Msg) handshakeMessage           { return nil }
 func c14ExtraFrom(lm handshakeMessage) c14Msg        { return c14Msg{} }
+
+// c04SendEmpty: the stream stack has no empty application message.
+func c04SendEmpty(c *Conn) error { return nil }
